@@ -6,6 +6,8 @@ import FxVerif.Proofs.C20Msg
 import FxVerif.Gen.C20Msg
 import FxVerif.Proofs.C20Handler
 import FxVerif.Gen.C20Handler
+import FxVerif.Proofs.C20Bech32
+import FxVerif.Gen.C20Bech32
 /-!
 # C20 — hostile input never crashes a node and cannot dodge the minimum fee
 
@@ -970,5 +972,94 @@ example : ∃ s ∈ qsites, s.isPanic = true ∧ ∃ r ∈ queryRoots, inSet que
   decide +kernel
 
 end Handler
+
+/-! ## bech32 decoding behind every Cosmos-address check (round 5): the decoder modelled, its slices in range, its constants regenerated
+
+`Model/C20Bech32.lean` follows `sdk.GetFromBech32 → types/bech32.DecodeAndConvert → btcutil/bech32.Decode(·, 1023) → ConvertBits(·, 5, 8,
+false)` statement by statement; the `bech` driver lines compare its verdict (error class, human-readable part, address bytes) with the
+real decoder on hostile strings.  The theorems hold for EVERY byte string. -/
+section Bech32
+open FxVerif.Model.C20Bech32 FxVerif.Proofs.C20Bech32
+
+/-- the constants of the model are the constants of the code: charset and generator table of btcutil, minimum length of
+`DecodeNoLimit`, the limit the cosmos-sdk fork hands to `Decode`, the separator window and the four slice expressions of
+`DecodeUnsafe`, the printable range of `Normalize`; fx-core's prefix, address length and the two tests of `VerifyAddressFormat` -/
+theorem bech32_constants_as_written :
+    charset = FxVerif.Gen.C20Bech32.charset.toList.map Char.toNat ∧ gen = FxVerif.Gen.C20Bech32.gen ∧
+    (minLen : Int) = FxVerif.Gen.C20Bech32.minLen ∧ (limit : Int) = FxVerif.Gen.C20Bech32.limit ∧
+    FxVerif.Gen.C20Bech32.separatorCond = "one < 1 || one+7 > len(bech)" ∧
+    FxVerif.Gen.C20Bech32.decodeUnsafeSlices = ["bech[:one]", "bech[one+1:]", "decoded[:len(decoded)-6]", "decoded[len(decoded)-6:]"] ∧
+    FxVerif.Gen.C20Bech32.normalizeConds = ["(*bech)[i] < 33 || (*bech)[i] > 126", "hasLower && hasUpper", "hasUpper"] ∧
+    FxVerif.Gen.C20Bech32.addressPrefix = "fx" ∧ FxVerif.Gen.C20Bech32.addrLen = 20 ∧
+    FxVerif.Gen.C20Bech32.verifyAddressConds = ["len(bz) == 0", "len(bz) != AddrLen"] := by decide
+
+/-- **the slices of `DecodeUnsafe` are in range whenever they are reached** — for every byte string: once the separator test
+`one < 1 || one+7 > len(bech)` has passed, `bech[:one]` and `bech[one+1:]` are inside the string, and every result of `toBytes` on
+the data part has at least six elements, so `decoded[:len(decoded)-6]` and `decoded[len(decoded)-6:]` cannot go out of range.
+(With the minimum length 8 in front, `bech[len(bech)-6:]` of the checksum error path is in range as well.) -/
+theorem bech32_slices_in_range (s : List Nat) (one : Nat) (hsep : separator s = .ok one) :
+    one ≤ s.length ∧ one + 1 ≤ s.length ∧ 1 ≤ (s.take one).length ∧
+    ∀ decoded, toBytes (s.drop (one + 1)) = .ok decoded → 6 ≤ decoded.length := by
+  have h := separator_ok s one hsep
+  refine ⟨by omega, by omega, by simp only [List.length_take]; omega, ?_⟩
+  intro decoded hd
+  have := toBytes_length _ decoded hd
+  simp only [List.length_drop] at this
+  omega
+
+/-- **what the decoder accepts** — for every byte string: an accepted string has between 8 and 1023 bytes and a non-empty
+human-readable part, and the address it yields has exactly `⌊5·(len − len(hrp) − 7)/8⌋ ≤ 635` bytes.  Everything else is
+answered with one of eight error classes (the result type has no third alternative). -/
+theorem bech32_accepts_only_wellformed (s hrp bz : List Nat) (h : decodeAndConvert s = .ok (hrp, bz)) :
+    8 ≤ s.length ∧ s.length ≤ 1023 ∧ 1 ≤ hrp.length ∧ bz.length = 5 * (s.length - hrp.length - 7) / 8 ∧ bz.length ≤ 635 := by
+  have h2 := decodeAndConvert_ok_length s hrp bz h
+  have h1 : 8 ≤ s.length ∧ s.length ≤ 1023 := by
+    unfold decodeAndConvert at h
+    split at h
+    · cases h
+    · rename_i hrp' values hd
+      have := decode_ok_spec s hrp' values hd
+      exact ⟨this.1, this.2.1⟩
+  exact ⟨h1.1, h1.2, h2.2.2.1, h2.1, h2.2.1⟩
+
+/-- **an fx address is 20 bytes, so its text has a fixed length**: when `GetFromBech32` + `VerifyAddressFormat` accept a string
+under a prefix, the string has exactly `len(prefix) + 39` bytes (`fx1…`: 41) — length-extension and truncation cannot be accepted -/
+theorem bech32_address_text_length (pfx s : List Nat) (h : addressClass pfx (· == 20) s = "ok") :
+    s.length = pfx.length + 39 := by
+  unfold addressClass at h
+  split at h
+  · exact absurd h (by decide)
+  · split at h
+    · rename_i e _
+      cases e <;> exact absurd h (by decide)
+    · rename_i hrp bz hd
+      split at h
+      · exact absurd h (by decide)
+      · rename_i hp
+        split at h
+        · rename_i hl
+          have h1 := bech32_accepts_only_wellformed s hrp bz hd
+          have h2 := decodeAndConvert_ok_length s hrp bz hd
+          have hh : hrp = pfx := by simpa using hp
+          have hl' : bz.length = 20 := by simpa using hl
+          subst hh
+          omega
+        · exact absurd h (by decide)
+
+-- non-vacuity: an accepted address, and every error class is inhabited (the model is executable)
+example : (decodeAndConvert ("cosmos1qypqxpq9qcrsszg2pvxq6rs0zqg3yyc5lzv7xu".toList.map Char.toNat)).toOption =
+    some ("cosmos".toList.map Char.toNat, (List.range 20).map (· + 1)) := by decide +kernel
+example : addressClass ("cosmos".toList.map Char.toNat) (· == 20) ("cosmos1qypqxpq9qcrsszg2pvxq6rs0zqg3yyc5lzv7xu".toList.map Char.toNat) = "ok" := by
+  decide +kernel
+example : (["", "a1qqqqq", "a b1qqqqqq", "aB1qqqqqq", "aqqqqqqqq", "1qqqqqqq", "a1bqqqqqq", "a1qqqqqqq", "a1q3g6mn3", "a12uel5l"].map
+    fun t => addressClass [97] (· == 20) (t.toList.map Char.toNat)) =
+    ["empty", "too-short", "invalid-char", "mixed-case", "separator", "separator", "non-charset", "checksum", "incomplete-group",
+      "length"] := by
+  decide +kernel
+example : addressClass [97] (· == 20) (List.replicate 1024 113) = "too-long" ∧
+    addressClass [97] (· == 20) (97 :: 49 :: List.replicate 100 113) = "checksum" := by decide +kernel
+example : (separator ("a12uel5l".toList.map Char.toNat)).toOption = some 1 := by decide +kernel
+
+end Bech32
 
 end FxVerif.Props.C20
